@@ -53,6 +53,9 @@ type MetavarMatcher struct {
 
 	// Reports whether the provided type matches the metavariable declaration.
 	TypeMatches func(reflect.Type) bool
+
+	// Pos in the patch file.
+	Pos token.Pos
 }
 
 func (c *matcherCompiler) compileIdent(v reflect.Value) Matcher {
@@ -78,6 +81,7 @@ func (c *matcherCompiler) compileIdent(v reflect.Value) Matcher {
 		Fset:        c.fset,
 		Name:        name,
 		TypeMatches: matchType,
+		Pos:         ident.NamePos,
 	}
 }
 
@@ -106,9 +110,16 @@ func (m MetavarMatcher) Match(got reflect.Value, d data.Data, r Region) (data.Da
 
 	// We're seeing this for the first time. Capture it into a compiler and
 	// replacer so we can match and reproduce it later.
+	inPlace := newReplacerCompiler(m.Fset, nil, r.Pos, r.End)
+	inPlace.keepPos = true
+	if n, ok := got.Interface().(ast.Node); ok {
+		d = pushPosMatch(m.Fset, d, m.Pos, n.Pos())
+	}
 	return data.WithValue(d, key, metavarData{
 		Matcher:  newMatcherCompiler(m.Fset, nil, r.Pos, r.End).compile(got),
 		Replacer: newReplacerCompiler(m.Fset, nil, r.Pos, r.End).compile(got),
+		InPlace:  inPlace.compile(got),
+		Pos:      nodePos(got),
 		Node:     nodeIdentity(got),
 	}), true
 }
@@ -134,6 +145,13 @@ type metavarData struct {
 	// Node identifies the captured node: two captures of the same node are
 	// the same binding.
 	Node uintptr
+
+	// InPlace reproduces the captured node with the positions it has in
+	// the file, and Pos is where it starts. That is used when the
+	// metavariable is reproduced where it was matched, so that the layout
+	// of the captured code and the comments inside it stay as they are.
+	InPlace Replacer
+	Pos     token.Pos
 }
 
 func isExpression(t reflect.Type) bool {
@@ -165,7 +183,11 @@ func isIdent(t reflect.Type) bool {
 // Each occurrence of the metavariable in the plus section of the patch is
 // replaced with the value originally captured for it by the Matcher.
 type MetavarReplacer struct {
+	Fset *token.FileSet
 	Name string
+
+	// Pos in the patch file.
+	Pos token.Pos
 }
 
 func (c *replacerCompiler) compileIdent(v reflect.Value) Replacer {
@@ -174,7 +196,7 @@ func (c *replacerCompiler) compileIdent(v reflect.Value) Replacer {
 		// Not a metavariable. Reproduce the identifier as-is.
 		return c.compileGeneric(v)
 	}
-	return MetavarReplacer{Name: name}
+	return MetavarReplacer{Fset: c.fset, Name: name, Pos: v.Interface().(*ast.Ident).NamePos}
 }
 
 // Replace reproduces the value of a matched metavariable.
@@ -189,5 +211,15 @@ func (m MetavarReplacer) Replace(d data.Data, cl Changelog, pos token.Pos) (refl
 		return reflect.Value{}, fmt.Errorf("could not find value for metavariable %q", m.Name)
 	}
 
+	if md.Pos.IsValid() && lookupPosMatch(m.Fset, d, m.Pos) == md.Pos {
+		return md.InPlace.Replace(data.New(), cl, pos)
+	}
 	return md.Replace(data.New(), cl, pos)
+}
+
+func nodePos(v reflect.Value) token.Pos {
+	if n, ok := v.Interface().(ast.Node); ok {
+		return n.Pos()
+	}
+	return token.NoPos
 }
